@@ -5,6 +5,7 @@ import (
 	"math/rand/v2"
 	"reflect"
 	"strings"
+	"sync"
 	"time"
 	"unsafe"
 
@@ -219,6 +220,40 @@ func Time(r *rand.Rand, o ValOpts) time.Time {
 	if o.Mode == ModeRandom && r.IntN(8) == 0 {
 		return time.Time{}
 	}
+	// now and then the previous time again, or the same instant seen from another zone (consecutive values that
+	// are Equal but not identical)
+	lastTimeMu.Lock()
+	prev := lastTime
+	lastTimeMu.Unlock()
+	if !prev.IsZero() && prev.Year() > 2 && prev.Year() < 9998 {
+		switch r.IntN(16) {
+		case 0:
+			return prev
+		case 1, 2:
+			off := (r.IntN(2*(23*60+59)+1) - (23*60 + 59)) * 60
+			return prev.In(time.FixedZone("", off))
+		}
+	}
+	t := freshTime(r)
+	lastTimeMu.Lock()
+	lastTime = t
+	lastTimeMu.Unlock()
+	return t
+}
+
+var (
+	lastTimeMu sync.Mutex
+	lastTime   time.Time
+)
+
+// ResetState forgets what the generators remember between values (called at the start of every case).
+func ResetState() {
+	lastTimeMu.Lock()
+	lastTime = time.Time{}
+	lastTimeMu.Unlock()
+}
+
+func freshTime(r *rand.Rand) time.Time {
 	var loc *time.Location
 	switch r.IntN(4) {
 	case 0:
